@@ -6,19 +6,24 @@ pub mod c04;
 pub mod c05;
 pub mod c06;
 pub mod c07;
+pub mod c08;
 pub mod c13;
 pub mod c16;
 pub mod c17;
 pub mod c18;
 pub mod c18_impls;
 pub mod c19;
+pub mod c20;
+pub mod c24;
 pub mod c25;
 pub mod c26;
 pub mod c27;
+pub mod c28;
+pub mod unify;
 
 /// properties whose harness run is split over child processes (see main.rs `run_sharded`)
 pub fn sharded(prop: &str) -> bool {
-    matches!(prop, "C04" | "C13")
+    matches!(prop, "C04" | "C13" | "C28" | "C20" | "C08")
 }
 
 pub fn run(ctx: &Ctx, out: &mut Out) -> bool {
@@ -30,13 +35,18 @@ pub fn run(ctx: &Ctx, out: &mut Out) -> bool {
         "C05" => c05::run(ctx, out),
         "C06" => c06::run(ctx, out),
         "C07" => c07::run(ctx, out),
+        "C28" => c28::run(ctx, out),
+        "C08" => c08::run(ctx, out),
         "C13" => c13::run(ctx, out),
         "C17" => c17::run(ctx, out),
         "C18" => c18::run(ctx, out),
         "C19" => c19::run(ctx, out),
+        "C20" => c20::run(ctx, out),
+        "C24" => c24::run(ctx, out),
         "C25" => c25::run(ctx, out),
         "C26" => c26::run(ctx, out),
         "C27" => c27::run(ctx, out),
+        "C14" | "C15" | "C29" => unify::run(ctx, out),
         _ => return false,
     }
     true
